@@ -106,6 +106,15 @@ where
             }
         }
         tr.raw(&format!("{{\"op\":\"begin\",\"name\":\"{}\",\"t\":{},\"k\":{},\"n\":{}}}", ev.op, ev.t, ev.k, ev.n));
+        // reference for the shrink contract: what a fresh with_capacity(max(len, m)) holds (measured, not computed)
+        if ev.op == "shrink_to" || ev.op == "shrink_to_fit" {
+            if let Some(m) = self.tabs[ev.t - 1].as_ref() {
+                let mm = if ev.op == "shrink_to" { ev.n.max(0) as usize } else { 0 };
+                let need = m.len().max(mm);
+                let fresh = if need == 0 { 0 } else { HashMap::<K, V, PlanBH, CheckingAlloc>::with_capacity_and_hasher_in(need, PlanBH { pl: 0 }, CheckingAlloc).allocation_size() };
+                ev.r = vec![fresh as i64];
+            }
+        }
         env::begin_window();
         env::arm(&ev.fa, ev.fk);
         let res = catch_unwind(AssertUnwindSafe(|| self.body(&mut ev, probe.as_ref())));
